@@ -1,8 +1,11 @@
+import SignaloModel.Proofs.PeekProofs
 import SignaloModel.Proofs.SourcesTree
 /-!
 # C10 — Source adapters yield exactly what their iterator analogues yield
 
-Property theorems for C10 (statements are printed by `#check`, axioms by `#print axioms`;
+Property theorems for C10 (statements are printed by `#check`, axioms by `#check @Sources.peek_correct
+#check @Sources.runPeek_correct
+#print axioms`;
 `bin/check C10` re-elaborates this file on every run and audits the axiom lists).
 -/
 open SignaloModel
@@ -48,3 +51,5 @@ open SignaloModel
 #print axioms Sources.peek_then_pull
 #print axioms Sources.peek_idem
 #print axioms Sources.peek_pull_plain
+#print axioms Sources.peek_correct
+#print axioms Sources.runPeek_correct
